@@ -40,7 +40,8 @@ def default_cfg(cls, N, rng, cplx, tone=False):
 
 ROUTES = ['fresh', 'data_assigned', 'data_inplace', 'data_refilled', 'sampling_assigned', 'nfft_assigned', 'scale_assigned',
           # histories through a NON-default representation (sides), staleness and the scale_by_freq toggle; all end in the default layout
-          'sides_first', 'sides_then_stale', 'sides_same_after_stale', 'stale_then_scale_toggle', 'datatype_flip', 'sides_call_call']
+          'sides_first', 'sides_then_stale', 'sides_same_after_stale', 'stale_then_scale_toggle', 'datatype_flip', 'sides_call_call',
+          'data_other_length', 'stale_then_reassign_all']
 
 
 def pick_route(rng, p_fresh=0.5):
@@ -121,6 +122,26 @@ def via(make, x, NFFT, sampling, scale_by_freq, route='fresh', prev=None):
         p = make(other, NFFT, sampling, scale_by_freq); _ = p.psd
         p.data = flip; _ = p.psd
         p.data = x
+    elif route == 'data_other_length':
+        # the object held a record of ANOTHER length before; the NFFT specification (None / 'nextpow2' / an integer) is re-assigned afterwards
+        longer = np.concatenate([other, other[:7] if len(other) >= 7 else other])
+        p = make(longer, NFFT, sampling, scale_by_freq); _ = p.psd
+        p.data = x
+        p.NFFT = NFFT
+    elif route == 'stale_then_reassign_all':
+        # made stale, then every settable attribute re-assigned with the value it already has: none of them may revive the stale estimate
+        p = make(other, NFFT, sampling, scale_by_freq); _ = p.psd
+        p.data = x
+        for attr in ('ar_order', 'ma_order', 'lag', 'window', 'detrend', 'scale_by_freq', 'sampling'):
+            try:
+                v = getattr(p, attr)
+            except Exception:
+                continue
+            if v is not None or attr == 'detrend':
+                try:
+                    setattr(p, attr, v)
+                except Exception:
+                    pass
     elif route == 'sides_call_call':
         # explicit computations while a non-default representation is selected
         p = make(other, NFFT, sampling, scale_by_freq); p()
@@ -131,6 +152,73 @@ def via(make, x, NFFT, sampling, scale_by_freq, route='fresh', prev=None):
     else:
         raise KeyError(route)
     return p
+
+
+def route_consistency(make, x, NFFT, sampling, scale_by_freq, routes=None, rtol=1e-9):
+    """the estimate an object holds must not depend on HOW it came to hold its data and settings: every route of `via` against the freshly
+    constructed object.  Returns [(route, what)].  (With this, a relation checked on fresh objects holds on every route.)"""
+    bad = []
+    ref_obj = make(np.asarray(x), NFFT, sampling, scale_by_freq)
+    ref = np.array(ref_obj.psd); fref = np.asarray(ref_obj.frequencies(), dtype=float); sc = max(float(np.max(np.abs(ref))), 1e-300)
+    for route in (routes or ROUTES[1:]):
+        try:
+            p = via(make, x, NFFT, sampling, scale_by_freq, route)
+            got = np.array(p.psd); f = np.asarray(p.frequencies(), dtype=float)
+        except Exception as e:
+            try:
+                via(make, x, NFFT, sampling, scale_by_freq, 'data_assigned')       # is the OTHER record of the routes inside the estimator's domain at all?
+            except Exception:
+                continue
+            bad.append((route, 'raised %s: %s' % (type(e).__name__, str(e)[:80]))); continue
+        if got.shape != ref.shape:
+            bad.append((route, 'psd has %d values, a freshly constructed object %d' % (len(got), len(ref))))
+        elif len(f) != len(got) or len(f) != len(fref) or np.max(np.abs(f - fref)) > 1e-9 * max(1.0, abs(sampling)):
+            bad.append((route, 'frequencies() differs from the axis of a freshly constructed object (%d vs %d entries)' % (len(f), len(fref))))
+        elif not np.all(np.isfinite(got)) or np.max(np.abs(got - ref)) > rtol * sc:
+            bad.append((route, 'psd differs from a freshly constructed object with the same data and settings (max rel dev %.3g)' % (np.max(np.abs(got - ref)) / sc)))
+    return bad
+
+
+def class_route_stream(ctx, classes, prop_key, make_cfg=None, n_per_class=None):
+    """route consistency for every class x real/complex x scale_by_freq on/off, NFFT != N with both parities; reports through ctx.violation
+    with key <prop_key>/<class>/<route>.  Replays are self-contained (form 'routes')."""
+    import vlib
+    rng = ctx.rng
+    for ci, cls in enumerate(classes):
+        for cplx in (False, True):
+            N = int(rng.integers(20, 41))
+            x, kind = gen_data(rng, N, cplx, ['noise', 'tone', 'ar'][int(rng.integers(0, 3))])
+            cfg = (make_cfg or default_cfg)(cls, N, rng, cplx)
+            NFFT = N + 3 + ((ci + int(cplx)) % 2) + (2 * cfg.get('lag', 0) if cls == 'pcorrelogram' else 0) + (2 * cfg.get('order', 0) if cls == 'pminvar' else 0)
+            if rng.integers(0, 3) == 0:
+                NFFT = None                         # the default grid (resolved from the data length)
+            sampling = float(rng.choice([1.0, 4.0, 0.25]))
+            sbf = bool(rng.integers(0, 2))
+            rtol = 1e-3 if (cls == 'MultiTapering' and cfg.get('method') == 'adapt') else 1e-9
+            ctx.count('routes/%s/%s' % (cls, 'complex' if cplx else 'real'))
+            ctx.case(('routes', cls, cplx, x.tobytes(), NFFT, sampling, sbf), nontrivial=True,
+                     sample={'estimator': cls, 'routes': len(ROUTES) - 1, 'N': N, 'NFFT': NFFT, 'scale_by_freq': sbf} if ci == 0 else None)
+            jc = {k: (v.item() if isinstance(v, (np.integer, np.floating)) else v) for k, v in cfg.items()}
+            try:
+                bad = route_consistency(lambda d, n, s_, b: _construct(cls, d, cfg, n, s_, b), x, NFFT, sampling, sbf, rtol=rtol)
+            except Exception as e:
+                ctx.count('routes/%s/fresh-raised' % cls); continue
+            for route, what in bad:
+                ctx.violation('%s/%s/%s' % (prop_key, cls, route), '%s (%s data, NFFT=%d, scale_by_freq=%s) reached by route %s: %s' % (
+                    cls, 'complex' if cplx else 'real', NFFT if NFFT is not None else -1, sbf, route, what),
+                    {'form': 'routes', 'estimator': cls, 'cfg': jc, 'NFFT': NFFT, 'sampling': sampling, 'scale_by_freq': sbf, 'route': route,
+                     'x': vlib.hexv(np.asarray(x, dtype=complex)), 'datatype': 'complex' if cplx else 'real'})
+
+
+def replay_routes(r):
+    """True = holds"""
+    import vlib
+    x = vlib.unhexv(r['x'])
+    if r['datatype'] == 'real':
+        x = np.real(x)
+    cls = r['estimator']; cfg = r['cfg']
+    rtol = 1e-3 if (cls == 'MultiTapering' and cfg.get('method') == 'adapt') else 1e-9
+    return not route_consistency(lambda d, n, s_, b: _construct(cls, d, cfg, n, s_, b), x, r['NFFT'], r['sampling'], r['scale_by_freq'], routes=[r['route']], rtol=rtol)
 
 
 def _alt_sides(x, i):
